@@ -1024,6 +1024,19 @@ func (pa *PanicAudit) analyse(f *ssa.Function) (changed bool) {
 		}
 	}
 	e.Run(f)
+	if e.Overflow && deepMode {
+		// too many paths at the deeper unrolling: analyse this function at the quick bound
+		pa.Notes = append(pa.Notes, "thorough: "+fnName(f)+" analysed at the quick unrolling bound (path count beyond 60000 at the deeper bound)")
+		for k, s := range pa.sites {
+			if k.fn == f {
+				delete(pa.sites, k)
+				_ = s
+			}
+		}
+		e.MaxVisits = 2
+		e.deepApplied = true
+		e.Run(f)
+	}
 	c.Paths += len(e.Paths)
 	if e.Overflow {
 		pa.Notes = append(pa.Notes, "path overflow in "+fnName(f))
